@@ -114,7 +114,7 @@ PROPS["C10"] = {
 PROPS["C19"] = {
     "lean": ["SioVerif.Props.C19"],
     "components": ["timed:TestQueues"],
-    "facts": ["chanPollQueueReady", "chanPacketQueueReady", "chanPacketQueueDrain"],
+    "facts": ["chanPollQueueReady", "chanPacketQueueReady", "chanPacketQueueDrain", "eioSendUnderTransportLock"],
     "rule": "forced schedules on the real pollQueue and packetQueue inside a synctest bubble: goroutines parked at the yield points (before get, between get and "
             "the select, before the final get, between append and signal) are released one atomic step at a time by a random walk (1..2 consumers, any number of "
             "producers, bursts of 1..2 packets, poll timeouts at virtual +45 s), quiescence observed with synctest.Wait; the label sequence actually taken is "
@@ -265,7 +265,7 @@ PROPS["C01"] = {
 PROPS["C02"] = {
     "lean": ["SioVerif.Props.C02"],
     "components": ["timed:TestOrder"],
-    "facts": ["sioSendPathSingleAdd", "sioClientGateAtomic", "chanPacketQueueReady"],
+    "facts": ["sioSendPathSingleAdd", "sioClientGateAtomic", "sioClientFlushUnderLock", "chanPacketQueueReady"],
     "timeout": {"quick": 900, "thorough": 3000},
     "rule": "real server and client on the in-memory network under virtual time, transport settled on long-polling, on WebSocket, or after a completed upgrade; 1..16 goroutines "
             "per direction (16 in every fifth scenario) emit bursts of 1..12 events with 0..4 attachments (12 bytes .. 70 kB) at once; every frame each connection's decoder "
@@ -368,7 +368,7 @@ PROPS["C06"] = {
 PROPS["C07"] = {
     "lean": ["SioVerif.Props.C07"],
     "components": ["timed:TestUpgrade"],
-    "facts": [],
+    "facts": ["eioSendUnderTransportLock"],
     "timeout": {"quick": 900, "thorough": 3000},
     "rule": "real Engine.IO server and client on the in-memory network under virtual time, continuous numbered messages in both directions (text and binary, single sends "
             "and bursts of 2..7, random gaps) from the first instant, a burst fired from the UpgradeDone callback; upgrade attempts: unobstructed, websocket refused, stalled "
